@@ -67,7 +67,11 @@ def _case(draw):
     prefix = draw(st.one_of(st.just(b""), gen.cbytes(8)))
     return {"mode": mode, "vals": vals, "specs": specs, "seps": seps, "prefix": prefix.hex(),
             "pos": draw(st.sampled_from([0, 0, 1000, 400])), "sink": draw(st.sampled_from(["string", "string", "file"])),
-            "trail": draw(st.booleans())}
+            "trail": draw(st.booleans()),
+            # what the String destinations hold before the read (a reused destination: empty, one character, longer),
+            # and whether the same text is read a second time into the same destinations
+            "dst": draw(st.sampled_from(["xx", "", "x", "x", "previous value, longer than most"])),
+            "again": draw(st.booleans())}
 
 
 def strategy(tier):
@@ -139,6 +143,7 @@ def run_case(ctx, case):
     trail = b" #" if case["trail"] else b""
     # ---- phase 2: read back
     P = Prog()
+    READ = []
     dsts = []
     for i, v in enumerate(vals):
         s = 10 + i
@@ -147,26 +152,33 @@ def run_case(ctx, case):
         elif v[0] == "Float":
             P.add("new %%%d heap t:Float f:%016x" % (s, gen.f2b(-77.5)))
         else:
-            P.add("new %%%d heap t:String s:7878" % s)
+            P.add("new %%%d heap t:String s:%s" % (s, case.get("dst", "xx").encode().hex()))
             if specs[i] == "%s":
                 P.add("resize %%%d %d" % (s, len(bytes.fromhex(v[1][2:])) + 2))
         dsts.append("%%%d" % s)
     if case["sink"] == "string":
         src = full + trail
         if case["mode"] == "show":
-            P.add("look %s s:%s %d" % (dsts[0], src.hex(), pos), lambda o: res.__setitem__("r", o))
+            READ.append("look %s s:%s %d" % (dsts[0], src.hex(), pos))
+            P.add(READ[0], lambda o: res.__setitem__("r", o))
         else:
-            P.add("scan s:%s %d %s %s" % (src.hex(), pos, fmt.hex(), " ".join(dsts)), lambda o: res.__setitem__("r", o))
+            READ.append("scan s:%s %d %s %s" % (src.hex(), pos, fmt.hex(), " ".join(dsts)))
+            P.add(READ[0], lambda o: res.__setitem__("r", o))
         want_ret = wret
     else:
         src = text + trail
         if not src:
             return Result(None, nt, ev, None)
         if case["mode"] == "show":
-            P.add("flook %s %s" % (dsts[0], src.hex()), lambda o: res.__setitem__("r", o))
+            READ.append("flook %s %s" % (dsts[0], src.hex()))
+            P.add(READ[0], lambda o: res.__setitem__("r", o))
         else:
-            P.add("fscan %s %s %s" % (src.hex(), fmt.hex(), " ".join(dsts)), lambda o: res.__setitem__("r", o))
+            READ.append("fscan %s %s %s" % (src.hex(), fmt.hex(), " ".join(dsts)))
+            P.add(READ[0], lambda o: res.__setitem__("r", o))
         want_ret = len(text)
+    if case.get("again"):
+        # the destinations now hold the values just read: reading the same text again must give the same answer
+        P.add(READ[0], lambda o: None if o == res.get("r") else "second read into the same destinations answered %s, the first one %s" % (o[:200], res.get("r", "")[:200]))
     fail, obs = P.run(ex)
     if fail:
         return Result(fail + " [text %r]" % text[:120], nt, ev, None)
